@@ -497,14 +497,19 @@ type requestSender struct {
 
 func (r *requestSender) Send(writer io.Writer) error {
 	switch frm := r.request.Frame().(type) {
+	// The request's frame can be in use by another connection's write loop at the same time (a request that moved on
+	// to the next host while still queued on a dying connection, the cached PREPARE frame used to re-prepare on several
+	// connections). The stream ID is only valid for this connection so it's set on a copy of the header.
 	case *frame.Frame:
-		frm.Header.StreamId = r.stream
-		verifAt("requestsender.stream.set", r.conn, frm.Header, r.stream)
-		return r.conn.codec.EncodeFrame(frm, writer)
+		hdr := *frm.Header
+		hdr.StreamId = r.stream
+		verifAt("requestsender.stream.set", r.conn, &hdr, r.stream)
+		return r.conn.codec.EncodeFrame(&frame.Frame{Header: &hdr, Body: frm.Body}, writer)
 	case *frame.RawFrame:
-		frm.Header.StreamId = r.stream
-		verifAt("requestsender.stream.set", r.conn, frm.Header, r.stream)
-		return r.conn.codec.EncodeRawFrame(frm, writer)
+		hdr := *frm.Header
+		hdr.StreamId = r.stream
+		verifAt("requestsender.stream.set", r.conn, &hdr, r.stream)
+		return r.conn.codec.EncodeRawFrame(&frame.RawFrame{Header: &hdr, Body: frm.Body}, writer)
 	default:
 		return errors.New("unhandled frame type")
 	}
